@@ -930,7 +930,7 @@ def run_generated(rep, tier):
     servers, handles = server_metadata(prog, it0, GCRATE, r'::__(G\d+)Endpoint<', exclude='AsyncGsvc')
     if set(servers) < {'g1', 'g2', 'g3'}:
         raise Inconclusive(f'C04 harness: generated endpoints not found: {servers}')
-    rep.bounds['generated'] = f'generated client (blocking) and generated #[conjure_endpoints] trait of gen-crates/service (real conjure-codegen output; server metadata {servers}); list query argument of 0..2 integers; set<string> query argument of 0..2 distinct members; optional<string> body and optional<string> result, present and absent'
+    rep.bounds['generated'] = f'generated clients (blocking: g1-g4; async: g1, g3, g4) and generated #[conjure_endpoints] trait of gen-crates/service (real conjure-codegen output; server metadata {servers}); list query argument of 0..2 integers; set<string> query argument of 0..2 distinct members; optional<string> body and optional<string> result, present and absent'
     tenv = {'T': ('path', 'MockClient', ())}
 
     def mk(rets):
@@ -1018,6 +1018,47 @@ def run_generated(rep, tier):
             c.syms = {'set_arg': ('set_str', [s_ for _, s_ in members]), 'opt_body': ('opt_str', (b_has, bs)), 'ret_opt': ('opt_str', (r_has, rs))}
             run_case(rep, it, dec, prog, c, st, tenv, f'blocking:set{ns}')
             finish_engine(rep, it)
+    # ---- the generated async client (GsvcAsyncClient) against the same endpoints: g1, g3, g4
+    if only in (None, 'async'):
+        it = mk({})
+        dec = Decider(rep, it)
+        st = St()
+        c = GenCase('g1', 'GsvcAsync')
+        path_arg, header_arg = z3.BitVec('path_arg', 32), z3.BitVec('header_arg', 32)
+        qp, qs = sym_str(st, 'query_arg', L)
+        tok, ts = valid_token(st, 'token')
+        c.args = [tok, path_arg, qp, header_arg]
+        c.syms = {'path_arg': ('i32', path_arg), 'query_arg': ('str', qs), 'header_arg': ('i32', header_arg), 'token': ('token', ts)}
+        run_case(rep, it, dec, prog, c, st, tenv, 'async')
+        finish_engine(rep, it)
+        st = St()
+        c = GenCase('g3', 'GsvcAsync')
+        bp, bs = sym_str(st, 'body_arg', L)
+        rp, rs = sym_str(st, 'ret', L)
+        it = mk({'g3': rs})
+        dec = Decider(rep, it)
+        c.args = [bp]
+        c.ret = rs
+        c.syms = {'body_arg': ('str', bs), 'ret': ('str', rs)}
+        run_case(rep, it, dec, prog, c, st, tenv, 'async')
+        finish_engine(rep, it)
+        st = St()
+        c = GenCase('g4', 'GsvcAsync')
+        members = [sym_str(st, 'set0', L)]
+        sp = st.ref(Seq(tuple(s_ for _, s_ in members)))
+        bp, bs = sym_str(st, 'opt_body', L)
+        b_has = z3.Bool('opt_body_some')
+        rp, rs = sym_str(st, 'ret_opt', L)
+        r_has = z3.Bool('ret_opt_some')
+        it = mk({})
+        it = mk({'g4': it.opt(r_has, rs)})
+        dec = Decider(rep, it)
+        c.args = [sp, it.opt(b_has, bp)]
+        c.set_args = (0,)
+        c.ret = it.opt(r_has, rs)
+        c.syms = {'set_arg': ('set_str', [s_ for _, s_ in members]), 'opt_body': ('opt_str', (b_has, bs)), 'ret_opt': ('opt_str', (r_has, rs))}
+        run_case(rep, it, dec, prog, c, st, tenv, 'async:set1')
+        finish_engine(rep, it)
 
 
 def run(rep, tier):
